@@ -320,10 +320,12 @@ func genBidir(t *rapid.T) bidirCase {
 	}
 	c.Seed = int64(rapid.Uint64().Draw(t, "seed") >> 2)
 	if gen.Int(t, 0, 2, "reflective") == 0 {
-		c.WallRho = gen.F(t, 0.3, 0.6, "wallrho")
+		c.WallRho = gen.F(t, 0.3, 0.8, "wallrho")
 		c.MaxDepth = gen.Int(t, 2, 5, "maxdepth2")
 		c.MaxLightDepth = gen.Int(t, 0, c.MaxDepth, "maxlightdepth2")
-		c.Cutoff = 0 // a cut-off truncates paths (biased by design); roulette and the power heuristic are unbiased
+		// in the bidirectional tracer Cutoff is a roulette as well (a path survives with probability mean/Cutoff and is
+		// scaled by the inverse): unbiased, so the closed form holds; large values make it fire at every bounce
+		c.Cutoff = rapid.SampledFrom([]float64{0, 0, 0.3, 0.6, 0.9}).Draw(t, "cutoff2")
 	}
 	return c
 }
@@ -438,7 +440,8 @@ func checkReflectiveFurnace(c bidirCase, base render3d.AreaLight, o *kit.Obs) er
 	o.Labelf("maxlightdepth:%d", c.MaxLightDepth)
 	light := &reflLight{AreaLight: base, mat: &render3d.LambertMaterial{DiffuseColor: render3d.NewColor(c.WallRho), EmissionColor: c.E.col()}}
 	bpt := &render3d.BidirPathTracer{Camera: c.Cam.build(), Light: light, MaxDepth: c.MaxDepth, MaxLightDepth: c.MaxLightDepth, MinDepth: c.MinDepth,
-		RouletteDelta: c.RouletteDelta, PowerHeuristic: c.PowerHeuristic, NumSamples: c.NumSamples}
+		RouletteDelta: c.RouletteDelta, PowerHeuristic: c.PowerHeuristic, Cutoff: c.Cutoff, NumSamples: c.NumSamples}
+	o.Labelf("cutoff:%g", c.Cutoff)
 	rand.Seed(c.Seed)
 	var dev [3][]float64
 	for r := 0; r < c.Renders; r++ {
